@@ -55,30 +55,33 @@ pub fn corpus() -> Vec<String> {
 /// input mentions a syllable boundary. Line shifts do not change it; a different call
 /// site, loop or rule type does.
 pub fn crash_key<T>(o: &Out<T>, rule: Option<&str>) -> String {
+    // shape of the rule: type, `$` / `%`,structure in input and output, matrix output, ellipsis in the input,
+    // optional / ellipsis / boundary in the environment, context / exception / both / none
+    let shape = match rule {
+        Some(r) => {
+            let r = r.replace("//", "|");
+            let (io, env) = match r.find(|c| c == '/' || c == '|') { Some(i) => (r[..i].to_string(), r[i..].to_string()), None => (r.clone(), String::new()) };
+            let head = io.split('>').next().unwrap_or("").trim().to_string();
+            let tail = io.splitn(2, '>').nth(1).unwrap_or("").trim().to_string();
+            let ty = if head == "*" || head == "∅" { "insertion" } else if tail.starts_with('*') || tail.starts_with('∅') { "deletion" } else if tail.starts_with('&') { "metathesis" } else { "substitution" };
+            let yn = |b: bool| if b { "y" } else { "n" };
+            let ctx = match (env.contains('/'), env.contains('|')) { (true, true) => "both", (true, false) => "context", (false, true) => "exception", _ => "none" };
+            format!("{}|in$={}|in%⟨={}|in..={}|out$={}|out%⟨={}|outmat={}|env-opt={}|env-ell={}|env-$%⟨={}|{}", ty,
+                yn(head.contains('$')), yn(head.contains('%') || head.contains('⟨') || head.contains('<')), yn(head.contains("..") || head.contains('…')),
+                yn(tail.contains('$')), yn(tail.contains('%') || tail.contains('⟨') || tail.contains('<')), yn(tail.contains('[')),
+                yn(env.contains('(')), yn(env.contains("..") || env.contains('…')), yn(env.contains('$') || env.contains('%') || env.contains('⟨') || env.contains('<')), ctx)
+        }
+        None => "n/a".to_string(),
+    };
     match o {
+        // a panic: normalised message + text of the source line (robust to line shifts) + rule shape
         Out::Panic(m, l) => {
             let norm: String = m.chars().map(|c| if c.is_ascii_digit() { 'N' } else { c }).collect();
-            format!("panic|{}|{}", trunc(&norm, 70), source_line_text(l))
+            format!("panic|{}|{}|{}", trunc(&norm, 70), source_line_text(l), shape)
         }
-        Out::Budget(_site) => {
-            // The loop in which the budget happens to trip is not stable (an endless outer loop
-            // contains inner loops), so a hang is identified by the *shape* of the rule instead.
-            match rule {
-                Some(r) => {
-                    let (io, env) = match r.find(|c| c == '/' || c == '|') { Some(i) => (&r[..i], &r[i..]), None => (r, "") };
-                    let head = io.split('>').next().unwrap_or("").trim();
-                    let tail = io.splitn(2, '>').nth(1).unwrap_or("").trim();
-                    let ty = if head == "*" || head == "∅" { "insertion" } else if tail.starts_with('*') || tail.starts_with('∅') { "deletion" } else if tail.starts_with('&') { "metathesis" } else { "substitution" };
-                    let yn = |b: bool| if b { "y" } else { "n" };
-                    let ctx = match (env.contains('/') , env.contains('|')) { (true, true) => "both", (true, false) => "context", (false, true) => "exception", _ => "none" };
-                    format!("hang|{}|in$={}|in%⟨={}|out$={}|out%⟨={}|outmat={}|env-opt={}|env-ell={}|env-$%⟨={}|{}", ty,
-                        yn(head.contains('$')), yn(head.contains('%') || head.contains('⟨') || head.contains('<')),
-                        yn(tail.contains('$')), yn(tail.contains('%') || tail.contains('⟨') || tail.contains('<')), yn(tail.contains('[')),
-                        yn(env.contains('(')), yn(env.contains("..") || env.contains('…')), yn(env.contains('$') || env.contains('%') || env.contains('⟨') || env.contains('<')), ctx)
-                }
-                None => "hang|n/a".into(),
-            }
-        }
+        // a hang: the loop in which the budget happens to trip is not stable (an endless outer loop contains
+        // inner loops), so it is identified by the shape of the rule alone
+        Out::Budget(_site) => format!("hang|{}", shape),
         Out::Ok(_) => "ok".into(),
     }
 }
